@@ -94,6 +94,37 @@ CLAIMED["C01"] = dict(
    note="Reference screen semantics (wide-character halves, ECH with current face, images above text) are the trusted base; z-order among overlapping images and a wide character half under an image are treated as terminal specific. Two design limits are listed as known findings.",
    design="§3 C01")
 
+CLAIMED["C09"] = dict(
+   technique="property-based testing: sentinel-canvas containment over generated windows (offset/strided/transposed), metamorphic chunk independence over generated write partitions, and an exactly-once/reading-order oracle for text rendered at its own layout size (independent layout model for no-wrap and CR cases); bounded-exhaustive sweep of short texts",
+   level="exploration",
+   text="~1M cases per quick run: nine writer paths (put_cell, io::Write, utf8_writer, tty_writer, Text sinks, draw_view, layout+render) into windows of a sentinel canvas under three partitions incl. cuts inside UTF-8 characters and escape sequences; texts of 0-39 items (narrow/wide/zero-width chars, newlines, tabs, glyphs with fallback, images) laid out for widths 1-19 and rendered at the reported size, both wrap modes and glyph capabilities.",
+   note="A write refused after the window is full is recorded as a label (cells are identical). Faces of cells skipped by tab/newline and positions (as opposed to reading order) are not claimed by the property and not checked.",
+   design="§3 C09")
+CLAIMED["C10"] = dict(
+   technique="property-based testing: generated view trees (built through the API and through JSON deserialisation) with transparent spy wrappers recording per-node constraints and probe leaves painting their id; oracles = no panic / containment in a sentinel canvas / reported size within the received constraint / probe paint inside its layout rectangle / find_path hit-testing",
+   level="exploration",
+   text="640k trees per quick run (<=12 nodes, <=5 levels; flex in both axes with every justify and 0-5 children, containers with every alignment incl. offsets and huge margins, frame, tag, dynamic, option/either, scroll bars incl. NaN positions, images, glyphs, text) under 1-3 constraints with extents from {0,1,2,3,7,20,80} and both glyph capabilities.",
+   note="Alignment/justification geometry is not fixed by the property: only consistency between layout tree, painting and hit-testing is checked. JSON trees carry no probes (size clause checked at the root only).",
+   design="§3 C10")
+CLAIMED["C13"] = dict(
+   technique="property-based testing: brute-force nearest-colour oracle for quantised images and palette lookups, palette/ index bounds, exact reproduction when colours fit, octree pruning bounds; exhaustive 2^24-query sweeps for fixed palettes",
+   level="exploration",
+   text="Images up to 48x48 (and at the sampling threshold), pixel pools relative to the requested palette size, alpha over generated backgrounds, crops, both dither settings; palettes of 1-512 colours incl. duplicates/collinear/clustered sets with member, +-1 neighbour and uniform queries; one (quick) or eleven (thorough) palettes are swept over ALL 2^24 query colours.",
+   note="Compositing uses rasterize's blend_over (trusted). With dithering on only bounds and exact reproduction are claimed.",
+   design="§3 C13")
+CLAIMED["C16"] = dict(
+   technique="property-based testing: model-based interleavings of the byte queue; sessions of a real terminal object on a pseudo-terminal with a throttled peer and injected short writes/EAGAIN/EINTR (fault injection through the verif hook), framed chunks checked for order / exactly-once / untorn delivery",
+   level="fault_enumeration",
+   text="Queue: ~44k generated operation histories per quick run compared with a deque model after every step. Terminal: ~3.7k pty sessions per quick run with records up to 64 KiB (thorough 256 KiB, far beyond the pty buffer), generated drain rates and cyclic write-fault patterns; the bytes received on the master side must be whole chunks in order, chunks written after the last frames_drop must be present.",
+   note="Kernel splitting of writes is sampled (real back-pressure from the pty + injected faults), not enumerated. A hang is reported as inconclusive.",
+   design="§3 C16")
+CLAIMED["C17"] = dict(
+   technique="property-based testing with an owned schedule: wakes from other threads, tty input and signals placed at named points of the poll loop (verif hook) in pty sessions, one terminal per worker process; generated exit paths with termios and closing-sequence inspection",
+   level="exploration",
+   text="6.4k sessions per quick run: 0-4 rounds of {1-3 concurrent wakes | typed input | SIGWINCH} placed before the poll or at 7 schedule points x 3 loop iterations of polls with zero / 50 ms / no timeout, optionally with output pending and a stalled peer; exit by drop, drop with pending output, run/run_render handler error or quit, SIGTERM/INT/QUIT, or master closed first; termios must equal the snapshot, the closing sequence must be delivered.",
+   note="Interleavings are sampled at hook points; races inside select(2) are not enumerable. poll(None) is guarded by a rescue thread; a poll that cannot be ended kills the worker and is attributed to the case.",
+   design="§3 C17")
+
 NOT_APPLICABLE = {}
 
 def main():
